@@ -350,7 +350,15 @@ func c07exec(c *h.Ctx, cs *h.Case) {
 				from.TreeNodeID = onet.TreeNodeID(uuid.New())
 			}
 			e.val++
-			err = e.send(onet.ProtocolMsgID, e.protoMsg(to, from, &fix.M3{V: e.val}, tk[4] == "0"), 0)
+			var pm *onet.ProtocolMsg
+			if tk[4] == "2" {
+				// a well-formed message of another registered type, announced as the handled type
+				pm = e.protoMsg(to, from, &fix.M4{V: e.val}, false)
+				pm.MsgType = network.MessageType(&fix.M3{})
+			} else {
+				pm = e.protoMsg(to, from, &fix.M3{V: e.val}, tk[4] == "0")
+			}
+			err = e.send(onet.ProtocolMsgID, pm, 0)
 		case len(tk) == 4 && tk[1] == "reqtree":
 			v := uint32(1)
 			if tk[3] == "1" {
@@ -521,7 +529,7 @@ func c07gen(c *h.Ctx, yield func(*h.Case)) {
 	var envs []string
 	for _, to := range []string{"none", "zero", "run", "done", "badnode", "freshK", "freshR", "freshU"} {
 		for _, f := range []string{"none", "member", "stranger"} {
-			for _, b := range []string{"1", "0"} {
+			for _, b := range []string{"1", "0", "2"} {
 				envs = append(envs, fmt.Sprintf("c07 proto %s %s %s", to, f, b))
 			}
 		}
